@@ -21,5 +21,6 @@ Conforms(in, obs) ==
 Describe(in) == LET run == DeleteRun(in.tree, CfgOf(in), in.roots, in.pre) IN
                 [matched |-> run.matched, deleted |-> run.deleted, failed |-> run.failed,
                  left |-> [i \in DOMAIN in.tree |-> i \notin run.gone]]
+Beyond(in) == FALSE
 INSTANCE TraceCheck
 =============================================================================
